@@ -133,7 +133,7 @@ fn judge_common(ctx: &Ctx, acc: &mut Acc, class: &str, case: &dyn Fn() -> Case, 
         Ok(d) => d,
         Err(p) => {
             if panic_in_scope {
-                ctx.violation(format!("panic {class} {}", panic_site(&p)), serde_json::to_value(case()).unwrap(), json!({"observed": format!("panic: {p}"), "expected": "an abstract value"}));
+                viol(ctx, format!("panic {class} {}", panic_site(&p)), serde_json::to_value(case()).unwrap(), json!({"observed": format!("panic: {p}"), "expected": "an abstract value"}));
             } else {
                 acc.stat("panics_outside_scope_(non_boolean_operands)", 1);
             }
@@ -142,7 +142,7 @@ fn judge_common(ctx: &Ctx, acc: &mut Acc, class: &str, case: &dyn Fn() -> Case, 
     };
     let view = read_back(&dom);
     for (kind, text) in view.well_formed(expected_w) {
-        ctx.violation(format!("wellformed {kind} {class}"), serde_json::to_value(case()).unwrap(), json!({"observed": view.render(), "broken": text}));
+        viol(ctx, format!("wellformed {kind} {class}"), serde_json::to_value(case()).unwrap(), json!({"observed": view.render(), "broken": text}));
     }
     let (inside, width) = view.hint_oddities();
     if inside {
@@ -155,7 +155,7 @@ fn judge_common(ctx: &Ctx, acc: &mut Acc, class: &str, case: &dyn Fn() -> Case, 
 }
 
 fn report_unsound(ctx: &Ctx, class: &str, case: &dyn Fn() -> Case, view: &View, members: serde_json::Value, concrete: Option<u128>) {
-    ctx.violation(
+    viol(ctx, 
         format!("soundness {class}"),
         serde_json::to_value(case()).unwrap(),
         json!({
@@ -498,13 +498,19 @@ fn main() {
                 let (i, j) = ((idx / n) as usize, (idx % n) as usize);
                 for opi in 0..ALL_BINOPS.len() {
                     let mut cache: Option<View> = None;
-                    // quick tier: operations whose code does not look at the hints at all (everything
-                    // except the five interval-aware ones) get the first and the last configuration only
-                    let reduced = !thorough && !matches!(ALL_BINOPS[opi], BinOpType::Piece | BinOpType::IntAdd | BinOpType::IntSub | BinOpType::IntMult | BinOpType::IntLeft);
+                    // operations whose code does not look at the hints at all (everything except the
+                    // five interval-aware ones) get only the first/last hint configurations:
+                    // quick (first,first),(last,last); thorough additionally (first,last),(last,first)
+                    let reduced = !matches!(ALL_BINOPS[opi], BinOpType::Piece | BinOpType::IntAdd | BinOpType::IntSub | BinOpType::IntMult | BinOpType::IntLeft);
+                    let (la, lb) = (elems[i].len() - 1, elems[j].len() - 1);
                     for (ka, ea) in elems[i].iter().enumerate() {
                         for (kb, eb) in elems[j].iter().enumerate() {
-                            if reduced && !((ka == 0 && kb == 0) || (ka + 1 == elems[i].len() && kb + 1 == elems[j].len())) {
-                                continue;
+                            if reduced {
+                                let corner = (ka == 0 || ka == la) && (kb == 0 || kb == lb);
+                                let diagonal = (ka == 0) == (kb == 0) || la == 0 || lb == 0;
+                                if !corner || (!thorough && !diagonal) {
+                                    continue;
+                                }
                             }
                             acc.states += 1;
                             ctx.sample(|| serde_json::to_value(Case::Bin { op: format!("{:?}", ALL_BINOPS[opi]), a: ea.iv.clone(), b: eb.iv.clone() }).unwrap());
@@ -541,7 +547,7 @@ fn main() {
                     eval_un(ctx, acc, op, &e.iv, &e.dom);
                 }
                 for op in ALL_CASTS {
-                    for to in [1u32, 2, 4, 8] {
+                    for to in [1u32, 2, 4, 8, 16] {
                         acc.states += 1;
                         eval_cast(ctx, acc, op, &e.iv, &e.dom, to);
                     }
@@ -576,7 +582,7 @@ fn main() {
                         eval_un(ctx, acc, op, &e.iv, &e.dom);
                     }
                     for op in ALL_CASTS {
-                        for to in [1u32, 2, 4, 8] {
+                        for to in [1u32, 2, 4, 8, 16] {
                             acc.states += 1;
                             eval_cast(ctx, acc, op, &e.iv, &e.dom, to);
                         }
@@ -629,7 +635,7 @@ fn main() {
                     eval_un(ctx, acc, op, iv, &dom);
                 }
                 for op in ALL_CASTS {
-                    for to in [1u32, 2, 4, 8] {
+                    for to in [1u32, 2, 4, 8, 16] {
                         if matches!(op, CastOpType::IntZExt | CastOpType::IntSExt) && to < 2 {
                             continue; // extensions only grow
                         }
@@ -788,8 +794,8 @@ fn main() {
     ctx.set(
         "bounds",
         json!({
-            "part1": if thorough { "1 byte: all pairs of I1 (grid end points, strides 0,1,2,3,4,5,8,16,64, anchored short intervals, Top) x all pairs of hint configurations (none/lower/upper/both, delays 0,1,5) x all 34 binary ops; every member pair (<= 65536) checked" } else { "1 byte: all pairs of I1 (reduced grid, strides 0,1,2,3,4,5,8,16,64, anchored short intervals, Top) x all 34 binary ops; all pairs of hint configurations for Piece/IntAdd/IntSub/IntMult/IntLeft, the first and last configuration pair for the 29 operations that ignore hints; every member pair (<= 65536) checked" },
-            "part2": "1 byte: every I1 value x hints x 10 unary ops, 7 casts to 1/2/4/8 bytes, subpiece; every member checked",
+            "part1": "1 byte: all pairs of I1 (grid end points, strides 0,1,2,3,4,5,8,16,64, anchored short intervals, Top) x all 34 binary ops; all pairs of hint configurations (none/lower/upper/both, delays 0,1,5) for Piece/IntAdd/IntSub/IntMult/IntLeft, first/last configuration pairs (quick 2, thorough 4) for the 29 operations whose code ignores hints; every member pair (<= 65536) checked",
+            "part2": "1 byte: every I1 value x hints x 10 unary ops, 7 casts to 1/2/4/8/16 bytes, subpiece; every member checked",
             "part3": "2 bytes: I1 intervals moved across byte/sign boundaries and scaled by 256 (<= 256 members, every member checked) x unary ops, casts, all subpieces, all binary ops against 18 fixed 2-byte operands (both orders), shifts/piece with 7 fixed 1-byte operands",
             "part4": "widths 2,4,8: intervals over boundary points and strides (incl. 2^(bits/2), 2^(bits-2)), one hint configuration each; all pairs x all binary ops, shifts by 1-byte and same-width amounts, piece with all other widths (sum <= 16), unary ops, casts to 1..16, every subpiece; members = all if <= 256, else the member alphabet (end points, 3 strides from either end, neighbours of the boundary points) -- NOT all members",
             "thorough_only": "EVERY well-formed 1-byte interval (170 700: all starts, all strides, all lengths), without hints and with one hint configuration: all unary ops, casts, subpiece; Piece/IntAdd/IntSub/IntMult/IntLeft against every interval of the quick I1 in both operand orders; every member (pair) checked",
